@@ -3,7 +3,7 @@
 import json, os, re
 VERIF = os.path.dirname(os.path.dirname(os.path.abspath(__file__)))
 idx = json.load(open(os.path.join(VERIF, 'seeded', 'index.json')))
-rows = ['| id | wave | what the change does | needs | caught by (rules) | blind result (wave 3) |', '|---|---|---|---|---|---|']
+rows = ['| id | wave | what the change does | needs | caught by (rules) | blind result (waves 3, 4) |', '|---|---|---|---|---|---|']
 for e in idx:
     meta = json.load(open(os.path.join(VERIF, 'seeded', e['id'], 'meta.json')))
     summ = re.sub(r'\s+', ' ', (meta.get('summary') or '')).strip()
